@@ -94,6 +94,8 @@ pub struct Cfg {
     pub truth: Option<Vec<u8>>,
     /// names created by the filestore requests of the script's Metadata PDU (C13 oracle)
     pub reqs: Vec<String>,
+    /// a file of this many bytes already exists under the destination name (receiver scripts)
+    pub pre: Option<usize>,
 }
 impl Cfg {
     pub fn parse(hdr: &[String]) -> Cfg {
@@ -116,6 +118,7 @@ impl Cfg {
             idw: 1,
             truth: None,
             reqs: vec![],
+            pre: None,
         };
         for kv in &hdr[1..] {
             let Some((k, v)) = kv.split_once('=') else { continue };
@@ -145,6 +148,7 @@ impl Cfg {
                 "file" => c.file = unhex(v),
                 "idw" => c.idw = v.parse().unwrap(),
                 "truth" => c.truth = Some(unhex(v)),
+                "pre" => c.pre = Some(v.parse().unwrap()),
                 "reqs" => c.reqs = v.split(',').filter(|x| !x.is_empty()).map(|x| x.to_string()).collect(),
                 _ => {}
             }
@@ -302,8 +306,15 @@ pub fn parse_payload(t: &[&str]) -> PDUPayload {
             let k = n(5) as usize;
             let mut resps = Vec::new();
             for i in 0..k {
+                // a response is written (as it is printed) as the request it answers; status Successful
                 let b = unhex(t[6 + i]);
-                resps.push(FileStoreResponse::decode(&mut b.as_slice()).expect("response hex"));
+                let rq = FileStoreRequest::decode(&mut b.as_slice()).expect("response (request form) hex");
+                resps.push(FileStoreResponse {
+                    action_and_status: FileStoreStatus::get_status(&rq.action_code, 0).expect("status 0"),
+                    first_filename: rq.first_filename,
+                    second_filename: rq.second_filename,
+                    filestore_message: vec![],
+                });
             }
             PDUPayload::Directive(Operations::Finished(Finished {
                 condition: cond_of(n(1) as u8),
@@ -516,6 +527,10 @@ pub fn run(ops: &str, is_recv: bool, out: &mut impl Write, orc: &mut impl Write)
             let (pdu_tx, mut pdu_rx) = mpsc::channel::<(VariableID, PDU)>(64);
             let mut inds0: Vec<Indication> = Vec::new();
             let mut tx = if is_recv {
+                if let Some(n) = cfg.pre {
+                    // an older, longer file under the destination name: a delivery replaces it entirely
+                    let _ = std::fs::write(root.join(&cfg.dst), vec![0xEEu8; n]);
+                }
                 Tx::R(RecvTransaction::new(cfg.tconfig(), cfg.nak, filestore.clone(), ind_tx))
             } else {
                 std::fs::write(root.join(&cfg.src), &cfg.file).unwrap();
